@@ -9,9 +9,10 @@
 //          jg -> trace::propagation::JaegerPropagator
 //          the composite is built from the parts in the given order; for odd `inst` it is installed as the
 //          global propagator and used through GlobalTextMapPropagator::GetGlobalPropagator()
-//   identities  tcS, b3S, jgS, S0: four different random non-zero (trace id, span id) pairs per instance
-//   carrier (extract)  group status valid   -> a well-formed header carrying the group's identity
-//                                              (b3g: the single "b3" header AND the three X-B3-* headers, same ids)
+//   identities  tcS, b3sS, b3xS, jgS, S0: five different random non-zero (trace id, span id) pairs per instance
+//   carrier (extract)  every wire format independently of the configured parts: groups tc (traceparent
+//                      [+tracestate]), b3s ("b3"), b3x (X-B3-TraceId/SpanId[/Sampled]), jg (uber-trace-id), bag
+//                      group status valid   -> a well-formed header carrying the group's own identity
 //                      invalid -> garbage that no reading of the format accepts ("zz..." / member without '=')
 //                      absent  -> no header
 //   ctx0   none -> empty context;  S0/B0 -> a context holding a span with identity S0 and a baggage {c0k=c0v}
@@ -189,7 +190,8 @@ static int replay(const char *path)
       json got;
       if (op == "extract")
       {
-        Ident tc = mk_ident(r, 0xA1), b3 = mk_ident(r, 0xB2), jg = mk_ident(r, 0xC3), s0 = mk_ident(r, 0xD4);
+        Ident tc = mk_ident(r, 0xA1), b3 = mk_ident(r, 0xB2), bx = mk_ident(r, 0xB7), jg = mk_ident(r, 0xC3),
+              s0 = mk_ident(r, 0xD4);
         Carrier car;
         std::string s;
         s = st["car"]["tc"].get<std::string>();
@@ -201,18 +203,22 @@ static int replay(const char *path)
         }
         else if (s == "invalid")
           car.h["traceparent"] = (r.next() & 1) ? "00-zz" + tc.thex().substr(2) + "-" + tc.shex() + "-01" : "garbage";
-        s = st["car"]["b3g"].get<std::string>();
+        s = st["car"]["b3s"].get<std::string>();      // the single "b3" header
+        if (s == "valid")
+          car.h["b3"] = b3.thex() + "-" + b3.shex() + (b3.sampled ? "-1" : "-0");
+        else if (s == "invalid")
+          car.h["b3"] = "zz" + b3.thex().substr(2) + "-" + b3.shex();
+        s = st["car"]["b3x"].get<std::string>();      // the X-B3-* headers (their own identity)
         if (s == "valid")
         {
-          car.h["b3"]           = b3.thex() + "-" + b3.shex() + (b3.sampled ? "-1" : "-0");
-          car.h["X-B3-TraceId"] = b3.thex();
-          car.h["X-B3-SpanId"]  = b3.shex();
-          car.h["X-B3-Sampled"] = b3.sampled ? "1" : "0";
+          car.h["X-B3-TraceId"] = bx.thex();
+          car.h["X-B3-SpanId"]  = bx.shex();
+          if (r.next() & 1)
+            car.h["X-B3-Sampled"] = bx.sampled ? "1" : "0";
         }
         else if (s == "invalid")
         {
-          car.h["b3"]           = "zz" + b3.thex().substr(2) + "-" + b3.shex();
-          car.h["X-B3-TraceId"] = "zz" + b3.thex().substr(2);
+          car.h["X-B3-TraceId"] = "zz" + bx.thex().substr(2);
           car.h["X-B3-SpanId"]  = "zz";
         }
         s = st["car"]["jg"].get<std::string>();
@@ -246,9 +252,9 @@ static int replay(const char *path)
           sc.trace_id().ToLowerBase16(t);
           sc.span_id().ToLowerBase16(sp);
           std::string th(t, 32), sh(sp, 16);
-          const Ident *ids[]  = {&tc, &b3, &jg, &s0};
-          const char *names[] = {"tcS", "b3S", "jgS", "S0"};
-          for (int i = 0; i < 4; ++i)
+          const Ident *ids[]  = {&tc, &b3, &bx, &jg, &s0};
+          const char *names[] = {"tcS", "b3sS", "b3xS", "jgS", "S0"};
+          for (int i = 0; i < 5; ++i)
             if (th == ids[i]->thex() && sh == ids[i]->shex())
               span = names[i];
         }
